@@ -141,4 +141,98 @@ theorem load_save (fl : Rat → Rat) (hfl : ∀ x, |fl x - x| ≤ |x| / 2 ^ 53) 
     config_roundtrip fl hfl L.config hcfg, hkindeq, hcons, hmk, unpack_pack_info L.info hinfo]
   rfl
 
+/-! ## fixpoint -/
+
+theorem ok_with_info (L : Laser) (X : Info) (hL : L.ok = true) (hX : noNulEnd (packInfoRaw X) = true) :
+    ({ L with info := X } : Laser).ok = true := by
+  simp only [Laser.ok, Bool.and_eq_true] at hL ⊢
+  exact ⟨hL.1, hX⟩
+
+theorem noNulEnd_of_version (ver : Str) (h : ver.all (fun c => c.isDigit || c == '.') = true) :
+    noNulEnd ver = true := by
+  unfold noNulEnd
+  cases hl : ver.getLast? with
+  | none => rfl
+  | some c =>
+    have := (List.all_eq_true.mp h) c (List.mem_of_getLast? hl)
+    have hc : c ≠ NUL := by
+      intro e; subst e; revert this; decide
+    simp [hc]
+
+theorem generations_succ (fl : Rat → Rat) (ver time : Str) (p : PathInfo) (n : Nat) (L : Laser) :
+    generations fl ver time p (n + 1) L
+      = ((save fl ver time L >>= load fl p) >>= generations fl ver time p n) := by
+  simp only [generations]
+  cases save fl ver time L <;> rfl
+
+/-- save → load of a laser whose info is that of a loaded laser only moves `File Path` to the end -/
+theorem generations_good (fl : Rat → Rat) (hfl : ∀ x, |fl x - x| ≤ |x| / 2 ^ 53) (p : PathInfo) (ver time : Str)
+    (L : Laser) (hL : L.ok = true) (hv : versionOk ver = true) (ht : noNulEnd time = true)
+    (n : Nat) (X : Info) (g : Good p ver X) :
+    generations fl ver time p (n + 1) { L with info := X } = .ok { L with info := nextInfo p X } := by
+  induction n generalizing X with
+  | zero =>
+    rw [generations_succ, load_save fl hfl p ver time _ (ok_with_info L X hL (noNulEnd_packInfoRaw X g.nonul)) hv ht]
+    simp only [normalise, finish_spec_good p ver X g]
+    rfl
+  | succ n ih =>
+    rw [generations_succ, load_save fl hfl p ver time _ (ok_with_info L X hL (noNulEnd_packInfoRaw X g.nonul)) hv ht]
+    simp only [normalise, finish_spec_good p ver X g]
+    have := ih (nextInfo p X) (good_next p ver X g)
+    rw [nextInfo_idem] at this
+    exact this
+
+/-- **Loading is a fixpoint.**  Let `L₁ = normalise L` be what the first load returns.  Then saving
+and loading `L₁` again succeeds, the result is the same Python object as `L₁` (all fields equal,
+the info dicts equal as mappings — only `File Path` has moved to the end of the insertion order),
+and from then on nothing changes at all.  Hypotheses beyond `load_save`: no info value ends in NUL
+(any of them can become the last one), the file stem has no tab (it becomes the `Name`) and no
+trailing NUL. -/
+theorem load_fixpoint (fl : Rat → Rat) (hfl : ∀ x, |fl x - x| ≤ |x| / 2 ^ 53) (p : PathInfo) (ver time : Str)
+    (L : Laser) (hL : L.ok = true) (hv : versionOk ver = true) (ht : noNulEnd time = true)
+    (hi : infoNoNul L.info = true) (hst : tabFree p.stem = true) (hsn : noNulEnd p.stem = true) :
+    (save fl ver time (normalise p ver L) >>= load fl p) = .ok (normalise p ver (normalise p ver L))
+    ∧ (normalise p ver (normalise p ver L)).same (normalise p ver L)
+    ∧ normalise p ver (normalise p ver (normalise p ver L)) = normalise p ver (normalise p ver L) := by
+  have hvc : ver.all (fun c => c.isDigit || c == '.') = true := by
+    simp only [versionOk, Bool.and_eq_true] at hv; exact hv.1.1
+  have hst' : '\t' ∉ p.stem := by simpa [tabFree] using hst
+  have g : Good p ver (finishInfo p ver (infoSpec L.info)) :=
+    good_finish p ver L.info hi hst' hsn (tabFree_of_version ver hvc) (noNulEnd_of_version ver hvc)
+  have g2 := good_next p ver _ g
+  have e1 : normalise p ver (normalise p ver L) = { L with info := nextInfo p (finishInfo p ver (infoSpec L.info)) } := by
+    simp only [normalise, finish_spec_good p ver _ g]
+  refine ⟨?_, ?_, ?_⟩
+  · exact load_save fl hfl p ver time _ (ok_with_info L _ hL (noNulEnd_packInfoRaw _ g.nonul)) hv ht
+  · rw [e1]
+    exact ⟨rfl, rfl, rfl, rfl, rfl, fun k => dictGet_nextInfo p ver _ g k⟩
+  · rw [e1]
+    simp only [normalise, finish_spec_good p ver _ g2, nextInfo_idem]
+
+/-- **Chains of any length.**  One generation gives `normalise L`; every chain of two or more
+generations gives exactly `normalise (normalise L)`, which is the same object as `normalise L`
+(`load_fixpoint`). -/
+theorem generations_fixpoint (fl : Rat → Rat) (hfl : ∀ x, |fl x - x| ≤ |x| / 2 ^ 53) (p : PathInfo) (ver time : Str)
+    (L : Laser) (hL : L.ok = true) (hv : versionOk ver = true) (ht : noNulEnd time = true)
+    (hi : infoNoNul L.info = true) (hst : tabFree p.stem = true) (hsn : noNulEnd p.stem = true) (n : Nat) :
+    generations fl ver time p 1 L = .ok (normalise p ver L)
+    ∧ generations fl ver time p (n + 2) L = .ok (normalise p ver (normalise p ver L)) := by
+  have hvc : ver.all (fun c => c.isDigit || c == '.') = true := by
+    simp only [versionOk, Bool.and_eq_true] at hv; exact hv.1.1
+  have hst' : '\t' ∉ p.stem := by simpa [tabFree] using hst
+  have g : Good p ver (finishInfo p ver (infoSpec L.info)) :=
+    good_finish p ver L.info hi hst' hsn (tabFree_of_version ver hvc) (noNulEnd_of_version ver hvc)
+  have h1 : generations fl ver time p 1 L = .ok (normalise p ver L) := by
+    rw [generations_succ, load_save fl hfl p ver time L hL hv ht]; rfl
+  refine ⟨h1, ?_⟩
+  rw [generations_succ, load_save fl hfl p ver time L hL hv ht]
+  have := generations_good fl hfl p ver time L hL hv ht n _ g
+  simp only [normalise, finish_spec_good p ver _ g] at this ⊢
+  exact this
+
+/-- non-vacuity of the fixpoint hypotheses: info with colliding keys and a `File Path` entry -/
+example : infoNoNul [(['a','\t','b'], ['1']), (['a',' ','b'], ['2','\t']), (kFilePath, ['x', NUL])] = true
+    ∧ tabFree ['l','a','s','e','r'] = true ∧ noNulEnd ['l','a','s','e','r'] = true
+    ∧ versionOk ['0','.','1','0','.','2'] = true := by decide
+
 end Pew.Npz
